@@ -544,6 +544,18 @@ def twin0_job(job):
     return out
 
 
+def ni_standalone(perv, d, j, kw):
+    """the public standalone flux calculation at point j of a returned non-ideal curve (its own composition and permeances)"""
+    try:
+        r = perv.calculate_partial_fluxes(feed_temperature=kw["feed_temperature"], composition=d.feed_compositions[j],
+                                          precision=kw["precision"], permeate_temperature=kw["permeate_temperature"],
+                                          permeate_pressure=kw["permeate_pressure"], first_component_permeance=d.permeances[j][0],
+                                          second_component_permeance=d.permeances[j][1], calculation_type=kw["calculation_type"])
+        return [F(r[0]), F(r[1])]
+    except Exception:  # noqa: BLE001
+        return None
+
+
 def nicurve_trace(rng):
     """non_ideal_diffusion_curve on a synthetic curve set, with the public best-fit search as oracle"""
     mix = gen.some_mixture(rng, p_builtin=0.6)
@@ -560,8 +572,16 @@ def nicurve_trace(rng):
     mode = rng.choice(["vac", "temp", "press"])
     n = rng.randrange(2, 7)
     P0 = None
-    kw = dict(diffusion_curve_set=cs, feed_temperature=T, initial_feed_composition=c0, delta_composition=rng.uniform(0.005, 0.04),
-              number_of_steps=n, permeate_temperature=rng.uniform(200.0, T - 25.0) if mode == "temp" else None,
+    dx = rng.uniform(0.005, 0.04)
+    x0w = c0.to_weight(mix).p
+    r = rng.random()
+    if r < 0.15:        # the grid ends next to 1: the look-ahead point of the last iteration is just inside or just outside
+        dx = (1.0 - x0w + rng.choice([-1, 1]) * rng.choice([0.0, 1e-12, 1e-3])) / (n + 1 + rng.choice([0, 0, -1]))
+    elif r < 0.3:       # a descending grid, a third of them ending next to 0
+        dx = -dx if rng.random() < 0.66 else -(x0w + rng.choice([-1, 1]) * rng.choice([0.0, 1e-12, 1e-3])) / (n + 1 + rng.choice([0, 0, -1]))
+    prec = rng.choice([5e-5, 5e-5, 1e-7])
+    kw = dict(diffusion_curve_set=cs, feed_temperature=T, initial_feed_composition=c0, delta_composition=dx,
+              number_of_steps=n, precision=prec, permeate_temperature=rng.uniform(200.0, T - 25.0) if mode == "temp" else None,
               permeate_pressure=rng.uniform(0.0, 3.0) if mode == "press" else None, calculation_type=model)
     sc["fitopts"] = {"n_first": rng.choice([None, None, 0, 1]), "m_first": rng.choice([None, None, 0, 1]),
                      "n_second": rng.choice([None, None, 0, 1]), "m_second": rng.choice([None, None, 0, 1]),
@@ -575,16 +595,16 @@ def nicurve_trace(rng):
     try:
         d = perv.non_ideal_diffusion_curve(**kw)
     except Exception as e:  # noqa: BLE001
-        return [{"ev": "NIStart", "outcome": "raise", "exc": type(e).__name__, "hasFits": False}]
+        return [{"ev": "NIStart", "outcome": "raise", "exc": type(e).__name__, "hasFits": False, "x0w": F(x0w), "dx": F(dx), "N": n}]
     fo = fit_oracle(sc, membrane, model_kind="curve")
-    tr = [{"ev": "NIStart", "outcome": "return", "hasFits": True, "fitopts": str(sc["fitopts"]), "single": fo["single"], "fits_orc": fo["orc"], "Ea": fo["Ea"],
+    tr = [{"ev": "NIStart", "outcome": "return", "hasFits": True, "dx": F(dx), "prec": F(prec), "fitopts": str(sc["fitopts"]), "single": fo["single"], "fits_orc": fo["orc"], "Ea": fo["Ea"],
            "T": F(T), "Tcurve": F(cs.diffusion_curves[0].feed_temperature), "x0w": F(c0.to_weight(mix).p), "basis": basis,
            "N": n, "P0given": P0 is not None, "model": model, "mode": mode, "mixname": mix.name,
            "P0kg": [0.0, 0.0] if P0 is None else [F(P0[0].convert(KG, mix.first_component).value), F(P0[1].convert(KG, mix.second_component).value)]}]
     for j in range(len(d.feed_compositions)):
         tr.append({"ev": "NIPoint", "j": j, "x": F(d.feed_compositions[j].p), "xtype": d.feed_compositions[j].type,
                    "P": [F(d.permeances[j][0].value), F(d.permeances[j][1].value)], "Punits": d.permeances[j][0].units,
-                   "J": [F(d.partial_fluxes[j][0]), F(d.partial_fluxes[j][1])]})
+                   "J": [F(d.partial_fluxes[j][0]), F(d.partial_fluxes[j][1])], "Jstd": ni_standalone(perv, d, j, kw)})
     tr.append({"ev": "NIEnd", "nx": len(d.feed_compositions), "nP": len(d.permeances), "nJ": len(d.partial_fluxes)})
     return tr
 
